@@ -28,7 +28,7 @@ def obs {α} (r : RSt) (o : Out α) (f : α → String) : RSt × String :=
   | .panic => reply r "panic"
   | .oob => reply r "oob"
 
-def step (r : RSt) (toks : List String) : RSt × String :=
+def rstep (r : RSt) (toks : List String) : RSt × String :=
   let bad := (r, "bad-op")
   match toks with
   | ["case", _] => ({}, "case")
@@ -91,6 +91,6 @@ def step (r : RSt) (toks : List String) : RSt × String :=
   | ["conv", _] => reply r "ok"
   | _ => bad
 
-def runner : Runner := { σ := RSt, init := {}, step := step }
+def runner : Runner := { σ := RSt, init := {}, step := rstep }
 
 end Sux.BV
